@@ -505,6 +505,14 @@ func (c *config) WriteBackendMaps() error {
 			}
 		}
 	}
+	for _, backend := range c.backends.Items() {
+		// A path added in place, to a backend that is not built again, can make it
+		// start to need path IDs. Such a backend doesn't have its maps yet and the
+		// template cannot render it without them.
+		if backend.PathsMap == nil && backend.NeedACL() {
+			c.backends.PathsChanged(backend)
+		}
+	}
 	if !c.backends.Changed() && len(c.backends.ItemsPathsChanged()) == 0 {
 		// backends are clean, maps are updated
 		if hostAliases != nil {
